@@ -74,6 +74,12 @@ type Config struct {
 	HostReusesDNSMap bool `json:"host_reuses_dns_map,omitempty"`
 	// LongIDs: token identifiers are 60+ bytes long and share a 54-byte prefix
 	LongIDs bool `json:"long_ids,omitempty"`
+	// TraceLog: the process log level is TRACE (otherwise INFO)
+	TraceLog bool `json:"trace_log,omitempty"`
+	// ScratchReads: the stores hand out storage values as views of one reusable read buffer
+	ScratchReads bool `json:"scratch_reads,omitempty"`
+	// NilTrie: reading from an account that has never stored anything is an error (no data trie)
+	NilTrie bool `json:"nil_trie,omitempty"`
 }
 
 // Event is one step of a run; a replay file is a Config plus a list of Events.
@@ -187,6 +193,9 @@ type World struct {
 	Broken bool
 	// held: message bytes of earlier outputs still referenced by their receiver
 	held []retained
+	// folded / foldedWant: the host's accumulated output account per address and what it must list
+	folded     map[string]*vmcommon.OutputAccount
+	foldedWant map[string][]string
 	// toReuse: executions of this event whose input buffers their owner reuses at the end of the event
 	toReuse []*Exec
 	// options
@@ -483,6 +492,19 @@ func Rebuild(fn string, args [][]byte, ops []string) string {
 		kept = b.ToBytes()
 		b.Clear()
 	}
+	// a second builder is in use at the same time (an outer call whose argument another builder makes)
+	var finishSecond func() string
+	if extra["two"] {
+		b2 := txDataBuilder.NewBuilder()
+		b2.Func("inner").Str("x")
+		finishSecond = func() string {
+			b2.Int(5).Str("y")
+			if got := b2.ToString(); got != "inner@78@05@79" {
+				return fmt.Sprintf("a second builder used at the same time produced %q instead of \"inner@78@05@79\"", got)
+			}
+			return ""
+		}
+	}
 	b.Func(fn)
 	skip := 0
 	if extra["helper"] {
@@ -556,6 +578,11 @@ func Rebuild(fn string, args [][]byte, ops []string) string {
 			b.Bytes(a)
 		}
 	}
+	if finishSecond != nil {
+		if problem := finishSecond(); problem != "" {
+			return problem
+		}
+	}
 	out := b.ToString()
 	first := b.ToBytes()
 	if string(first) != out {
@@ -582,6 +609,11 @@ func (w *World) CheckBuilt(fn string, args [][]byte, data string) {
 		return
 	}
 	pf, pa, err := realCallParser.ParseData(data)
+	// the parsed arguments belong to the caller: it appends to each (the system contract builds
+	// "ticker-" from an argument that way) and then reads them all
+	for i := range pa {
+		_ = append(pa[i], 0x2d, 0x2d)
+	}
 	if err != nil || pf != fn || !eqArgs(pa, args) {
 		w.violate(spec.Violation{Props: spec.P("C12"), Clause: "build-parse", Detail: fmt.Sprintf("%q was built from %s%x and parses to %s%x (err=%v)", data, fn, args, pf, pa, err)})
 	}
@@ -670,6 +702,9 @@ func (w *World) wireChecks(ex *Exec, vd *spec.Verdict) {
 		}
 		sfn, sargs, serr := spec.ParseData(t.Data)
 		rfn, rargs, rerr := realCallParser.ParseData(t.Data)
+		for i := range rargs {
+			_ = append(rargs[i], 0x2d, 0x2d) // (the caller owns what the parser returned)
+		}
 		w.Stats.ParserChecks++
 		if (serr == nil) != (rerr == nil) {
 			w.violate(spec.Violation{Props: spec.P("C10", "C12"), Clause: "wire-parse", Detail: fmt.Sprintf("emitted data %q: call-arguments parser err=%v, documented grammar err=%v", t.Data, rerr, serr)})
